@@ -285,6 +285,15 @@ def matrix_shard(arg):
     return res
 
 
+def exhaustive_shard(arg):
+    """all short strings over the critical alphabet at the core sites"""
+    method, strip, impl, maxlen, part, nparts = arg
+    res = Result()
+    judge_cases(G.exhaustive_cases(method, strip, impl, maxlen, part, nparts), res,
+                'exhaustive<=%d:%s/strip:%s/impl:%s' % (maxlen, method, strip, impl))
+    return res
+
+
 def finding_zone_shard(arg):
     """model vs code inside the zones of the recorded findings (the model is bug-compatible there): the listed
     inputs and close variants; no oracle verdict here"""
@@ -317,7 +326,7 @@ def finding_zone_shard(arg):
 
 def run(ctx):
     nsh = 12
-    per = ctx.n(450, 14000)
+    per = ctx.n(450, 10000)
     res = Result()
     for impl in ('c', 'py'):
         n = per if impl == 'c' else per // 3
@@ -331,8 +340,15 @@ def run(ctx):
             res.merge(r)
         for r in pmap('harness.props.c01', 'finding_zone_shard', [impl], impl=impl, procs=1):
             res.merge(r)
+    # every string of length <= L over the 8-symbol critical alphabet at the core sites
+    L = ctx.n(2, 4)
+    nparts = ctx.n(1, 4)
+    args = [(m, st, 'c', (L if not st else min(L, 3)), part, nparts)
+            for m in METHODS for st in (False, True) for part in range(nparts)]
+    for r in pmap('harness.props.c01', 'exhaustive_shard', args, impl='c', procs=12):
+        res.merge(r)
     res.rule = ('templates drawn from a grammar nesting every substitution site x payload kinds x 3 methods x 2 strip settings x both '
-                'Markup implementations, plus the deterministic matrix of every site x every critical payload; non-trivial = some context value contains one of & < > "; distinct by (method, strip, template, data)')
+                'Markup implementations, plus the deterministic matrix of every site x every critical payload and every string of length <= 2 (quick) / 4 (thorough) over an 8-symbol critical alphabet at the core sites; non-trivial = some context value contains one of & < > "; distinct by (method, strip, template, data)')
     res.samples = res.samples[:6]
     return res
 
